@@ -123,7 +123,7 @@ next:
 		goto next
 	}
 
-	dr.lastStatement = nextStatement
+	dr.lastStatement = nil
 	switch {
 	case nextStatement.LineStatement != nil:
 		markupResult, err := dr.textElementsToMarkup(nextStatement.LineStatement.Text.Elements)
@@ -162,6 +162,8 @@ next:
 				Disabled: disabled,
 			})
 		}
+		// the runner waits for a choice only once the options have been handed out: a group that failed to render is not pending
+		dr.lastStatement = nextStatement
 		return &DialogueElement{
 			Node:    dr.currentNode,
 			Options: options,
